@@ -3346,10 +3346,13 @@ static void thread_main_sched_func(void *arg)
             break;
 
         /* When join is requested, the ES terminates after finishing
-         * execution of all work units. */
+         * execution of all work units.  A single ABTI_sched_has_unit() is not
+         * enough: it reads the pool's emptiness before its blocked counter, so
+         * a unit resumed between the two reads (pushed, then uncounted) is
+         * missed.  ABTI_sched_has_to_stop() checks twice. */
         if ((ABTD_atomic_relaxed_load_uint32(&p_sched->request) &
              ABTI_SCHED_REQ_FINISH) &&
-            !ABTI_sched_has_unit(p_sched)) {
+            ABTI_sched_has_to_stop(p_sched)) {
             break;
         }
     }
